@@ -4,6 +4,7 @@ import (
 	"bytes"
 	"fmt"
 	"reflect"
+	"regexp"
 	"sort"
 	"strings"
 
@@ -246,24 +247,7 @@ func c04Mentions(l []*c04Item, m map[int]bool) {
 func c04FeaturesRec(l []*c04Item, f map[string]bool, oracle bool) {
 	for _, it := range l {
 		switch it.kind {
-		case c04KParen:
-			if oracle {
-				_, gs := c04Groups(it.a)
-				for _, g := range gs {
-					if c04PatternDefaultHazard(g, 4) {
-						f["arrow-head-pattern-default"] = true
-					}
-				}
-			}
 		case c04KFunc, c04KArrow:
-			if oracle && it.kind == c04KArrow {
-				_, gs := c04Groups(it.a)
-				for _, g := range gs {
-					if c04PatternDefaultHazard(g, 5) {
-						f["arrow-head-pattern-default"] = true
-					}
-				}
-			}
 			// default values that mention a later parameter, or a name the body declares
 			_, gs := c04Groups(it.a)
 			later := map[int]bool{}
@@ -452,7 +436,13 @@ func (g *c04ProgGen) members(depth int) []*c04Item {
 	var l []*c04Item
 	n := g.r.Intn(3)
 	for i := 0; i < n; i++ {
-		if g.r.Bool() {
+		if g.r.Chance(1, 4) {
+			// a static block: a function scope without parameters (rendered as static{...}: style bit 2)
+			it := g.mk(c04KFunc)
+			it.b = g.stmts(depth-1, 4)
+			it.style |= 4
+			l = append(l, it)
+		} else if g.r.Bool() {
 			l = append(l, g.fn(depth, false))
 		} else {
 			l = append(l, g.exprItem(depth))
@@ -1144,7 +1134,7 @@ func c04Oracle(r *Rng, tier string, rep *Report) {
 						v.Data = o
 					}
 				}
-				if back := c04PrintJS(p2.ast); back != before {
+				if back := c04PrintJS(p2.ast); c04Unshort(back) != c04Unshort(before) {
 					rep.Violate("c04-rename-roundtrip:"+src, fmt.Sprintf("%q: renaming, re-parsing and renaming back prints %q instead of %q", src, back, before), replay)
 				}
 			}
@@ -1156,8 +1146,17 @@ func c04Oracle(r *Rng, tier string, rep *Report) {
 		key, src string
 		want     []int64
 	}{
-		// a class static block is a var scope of its own
+		// a class static block is a var scope of its own (fixed in /repo 12a26e4)
 		{"c04-es:class-static-block-var", "class A{static{var x;}}x;", []int64{0, 1, 2}},
+		{"c04-es:class-static-block-var", "var x;class A{static{x;var x;function f(){}f;}}f;x;", []int64{0, 1, 2, 2, 3, 3, 4, 0}},
+		{"c04-es:class-static-block-var", "let y;(class{static{{var y;}y;}static{y;}});y;", []int64{0, 1, 1, 0, 0}},
+		// the default value after a pattern in a parenthesised list is an ordinary expression (fixed in /repo dce4c26)
+		{"c04-es:arrow-head-pattern-default", "({k:c}=[a,b])=>{};", []int64{0, 1, 2}},
+		{"c04-reject:arrow-head-pattern-default", "([c]=[c,b])=>{};", []int64{0, 0, 1}},
+		{"c04-es:arrow-head-pattern-default", "var a;({k:c}=[a,c],d=c)=>{a;c;d;};", []int64{0, 1, 0, 1, 2, 1, 0, 1, 2}},
+		{"c04-es:arrow-head-pattern-default", "var a,c;({k:c}=[a,c]);", []int64{0, 1, 1, 0, 1}},
+		{"c04-es:arrow-head-pattern-default", "(a,[b=a,{c=b}]=[d,x=>{(y)=>[z]}])=>{};z;", []int64{0, 1, 0, 2, 1, 3, 4, 5, 6, 6}},
+		{"c04-es:arrow-head-pattern-default", "({a}=x=>{(y)=>[z]});z;", []int64{0, 1, 2, 3, 3}},
 		{"c04-es:class-static-block-let", "class A{static{let x;x;}}x;", []int64{0, 1, 1, 2}},
 		// labels and property names are not variables
 		{"c04-es:label", "a:{break a;}a;", []int64{0}},
@@ -1188,6 +1187,20 @@ func c04Oracle(r *Rng, tier string, rep *Report) {
 	for i := 0; i < n; i++ {
 		check(c04GenProgram(r, 4+i%40, i%5 == 0), "random")
 	}
+}
+
+// the printer writes the shorthand {c = b} of an object literal under a parenthesis back as it was parsed, and
+// {c: c = b} once the property has been a renamed {c: x = b}: the same tree shape, two spellings
+var c04ShortInit = regexp.MustCompile(`\b([A-Za-z_$][A-Za-z0-9_$]*): ([A-Za-z_$][A-Za-z0-9_$]*) = `)
+
+func c04Unshort(s string) string {
+	return c04ShortInit.ReplaceAllStringFunc(s, func(m string) string {
+		g := c04ShortInit.FindStringSubmatch(m)
+		if g[1] == g[2] {
+			return g[1] + " = "
+		}
+		return m
+	})
 }
 
 func c04NamesOf(l []int) []string {
